@@ -59,7 +59,7 @@ type stOpts struct {
 	shareAPI     bool
 	groups       []stSubnetGroup // generation 1
 	noIngest     bool
-	geo          int  // GeoIP database: 0 = none (empty database), 1 = every address has a country code and an ASN, 2 = country "unk" (no ASN lookup), 3 = lookups fail
+	geo          int  // GeoIP database: 0 = none (empty database), 1 = every address has a country code and an ASN, 2 = country "unk" (no ASN lookup), 3 = lookups fail, 4 = IPv4-only database (IPv6 lookups fail with the MaxMind reader's error, which quotes the address)
 	realDetector bool // keep the real sendToDetector / clearDetector and give them a go-redis client over a simulated connection
 }
 
@@ -891,7 +891,19 @@ func stReadN(c net.Conn, n int, deadline time.Duration) ([]byte, error) {
 // connection handler only run for addresses the database knows).
 type stGeo struct{ kind int }
 
+// errV4Only is what the MaxMind reader answers when an IPv6 address is looked up in an IPv4-only
+// database (maxminddb-golang reader.go): the text quotes the address.
+func errV4Only(ip net.IP) error {
+	return fmt.Errorf("error looking up '%s': you attempted to look up an IPv6 address in an IPv4-only database", ip.String())
+}
+
 func (g stGeo) CC(ip net.IP) (string, error) {
+	if g.kind == 4 {
+		if ip.To4() == nil {
+			return "", errV4Only(ip)
+		}
+		return "US", nil
+	}
 	switch g.kind {
 	case 1:
 		return []string{"US", "DE", "IR"}[int(ip[len(ip)-1])%3], nil
@@ -902,6 +914,9 @@ func (g stGeo) CC(ip net.IP) (string, error) {
 }
 
 func (g stGeo) ASN(ip net.IP) (uint, error) {
+	if g.kind == 4 && ip.To4() == nil {
+		return 0, errV4Only(ip)
+	}
 	if g.kind == 3 {
 		return 0, errors.New("geoip: lookup failed")
 	}
